@@ -185,6 +185,23 @@ def adjust_alpha_crlf(items, text):
     return out
 
 
+def crlf_shift_evidence(expected_raw, items, text):
+    """True / False: the first plain token that alpha reports behind a CRLF line end (identified by kind, line
+    and column, which are reliable) has offsets exactly k too small / has the right offsets.  None: no such token."""
+    k = crlf_lines_before(text)
+    exp = {}
+    for raw in expected_raw:
+        if len(raw) == 11:
+            exp.setdefault((raw[0], raw[5], raw[7]), raw)
+    for o in items:
+        sh = k[o[3]] if 0 < o[3] < len(k) else 0
+        if sh > 0 and not o[0].startswith("Error"):
+            e = exp.get((o[0], o[3], o[4]))
+            if e is not None:
+                return e[3] - o[1] == sh and e[4] - o[2] == sh
+    return None
+
+
 def decimal_add_overflow_shape(text):
     """a decimal literal whose first 38 digits are floor(2^128/10) and whose next digit is 6..9:
     value*10 fits in 128 bits, value*10+digit does not"""
@@ -198,9 +215,9 @@ def decimal_add_overflow_shape(text):
     return False
 
 
-def valid_u_escape(bs):
+def valid_u_escape(bs, any_length=False):
     import re
-    m = re.match(rb"\\u\{([0-9a-fA-F]{1,6})\}", bs)
+    m = re.match(rb"\\u\{([0-9a-fA-F]+)\}" if any_length else rb"\\u\{([0-9a-fA-F]{1,6})\}", bs)
     if not m:
         return False
     c = int(m.group(1), 16)
@@ -222,6 +239,11 @@ def classify(d, g, text, exp_items):
     """d: a discrepancy from compare().  Returns (signature, resync) where resync tells whether both
     lists are still aligned after this item (the deviation replaces one item by one item)."""
     e, o = d.get("e"), d.get("o")
+    if g == "alpha" and e is not None and o is not None and e.code == 162 and not e.ex \
+            and text[e.lbs:e.lbs + 1] == b"'" and valid_u_escape(text[e.bs:], any_length=True) \
+            and (o[0] == "CharLiteral" or o[0] == "Error") and e.ls <= o[1] <= e.le and o[3] == e.line:
+        return ("alpha char-u-escape: \\u{...} inside a character literal is decoded instead of E162 "
+                "(pinned by tests/parsing.rs fail_to_parse_unicode_escape_in_char)"), True
     if g == "delta":
         where = o[1] if o is not None else (e.bs if e is not None else len(text))
         if e is not None:
@@ -234,8 +256,6 @@ def classify(d, g, text, exp_items):
             return "delta backslash-eol: E162 instead of E161 and the line break is swallowed", False
         if e.code == 160 and o[5] == 110 and text[at:at + 2] == b"\r\n":
             return "delta crlf-unclosed: E110 on the CR of CRLF instead of E160 for a literal not closed on its line", True
-        if o[5] == 162 and text[e.lbs:e.lbs + 1] == b"'" and e.lbs <= at <= e.lbe and valid_u_escape(text[at:]):
-            return "delta char-u-escape: \\u{...} inside a character literal is E162", True
         if o[5] == 140 and (e.k in ("BitInteger", "SuffixedInteger") or e.code == 141):
             lexeme = text[o[1]:o[2]]
             if lexeme[:2] == b"0b" and sum(1 for b in lexeme[2:] if b in b"01") > 128 and (o[1], o[2]) == (e.start, e.end):
@@ -270,8 +290,12 @@ def check_lexer(expected_raw, ob, g, text):
     d = compare(expected_raw, items, g)
     if d is not None and g == "alpha" and b"\r\n" in text:
         adj = adjust_alpha_crlf(items, text)
+        shifted = crlf_shift_evidence(expected_raw, items, text)
         d1 = compare(expected_raw, adj, g)
-        if d1 is None or d1["at"] > d["at"] or (d1["field"], d1["exp"], d1["got"]) != (d["field"], d["exp"], d["got"]):
+        if shifted is None:
+            # no plain token behind a CRLF line end to look at: decide by the effect of undoing the shift
+            shifted = d1 is None or d1["at"] > d["at"] or (d1["field"], d1["exp"], d1["got"]) != (d["field"], d["exp"], d["got"])
+        if shifted:
             out.append(("alpha crlf-offset: offsets after k lines ending in CRLF are k too small",
                         {"first": _dd(d)}))
             items, d = adj, d1
